@@ -243,6 +243,12 @@ func (g *gen) kernelMatrix(ops []string, cmp bool, modes []string) {
 							g.forceLit = l
 							g.binProgram(op, dt, kind, "fn", []int{2, 3}, path, path, mode, "contig")
 						}
+						if cmp && (dt == "f32" || dt == "f64") {
+							// unordered operands: NaN against NaN, numbers and infinities (value set 1) - `>=` is not `!(<)`
+							g.forceVset, g.forceLit = 1, ""
+							// sixteen cells: every special value (NaN, both infinities, both zeros) meets a number
+							g.binProgram(op, dt, kind, "fn", []int{4, 4}, path, path, mode, "contig")
+						}
 						if cmp && dt != "b" && path == "contig" {
 							// the one-element special cases of the engine glue: element -2 against -2 (tie) and 0
 							for _, l := range []string{"#k-2", "#k0"} {
